@@ -12,7 +12,7 @@ COMMON_NOTE = ("Trusted: Coq 8.16.1 kernel (+ vm_compute), no axioms (Print Assu
                "correspondence check run on every invocation: model evaluated inside Coq on generated cases and "
                "compared with the implementation), the harness glue (case printing, canonicalisation). ")
 
-TRAV_NOTE = COMMON_NOTE + "Static (fully parsed) graphs only; synthetic graphs are built from real TestNode/TestObject/TestWorker/TestGraph objects with the recipe replaced by a fixed parameter dictionary and the parse of the creation pre-node replaced by a stub node; the coroutines are resumed by hand (one atomic section per resume); store semantics shared by model, fake door and stub task is an assumption (PASS puts the set states into the worker's own pool, a scan reads own and shared pools, unset removes from the own pool); the relations the code evaluates on names (worker id in name, scope strings, location substrings, bridged form, prefix priority) are exported from the real objects by the harness's own code."
+TRAV_NOTE = COMMON_NOTE + "Static (fully parsed) graphs only; synthetic graphs are built from real TestNode/TestObject/TestWorker/TestGraph objects with the recipe replaced by a fixed parameter dictionary and the parse of the creation pre-node replaced by a stub node; the coroutines are resumed by hand (one atomic section per resume); store semantics shared by model, fake door and stub task is an assumption (PASS puts the set states into the worker's own pool, a scan reads own and shared pools, unset removes from the own pool); the relations the code evaluates on names (worker id in name, scope strings, location substrings, bridged form, prefix priority) are exported from the real objects by the harness's own code. occupied_wait is modelled with Coq's primitive binary64 floats (PrimFloat, a kernel primitive listed by Print Assumptions; no axiom is declared). A share of the schedules is a discrete-event simulation in which every test lasts less than its test_timeout (C04: 70%). Lazy (on-demand) parsing is outside the model: a few traversals of the shipped suite with the real parser are run per check and judged by the property monitors only."
 
 GRAPH_NOTE = COMMON_NOTE + "Translation validation: the parser (graph.py parse_* functions, params_parser, the Cartesian parser) is not modelled; each explored selection is parsed for real and the exported graph is judged by checkers whose soundness is proved. The exporter (harness code) reads nodes, edges with their object sets, per-object get/set states, clones, bridges and register identities (Python id) from the real objects; the rank certificate is computed by the harness and only checked."
 
